@@ -39,6 +39,10 @@ type pending struct {
 	kind, coq, key string
 	nontrivial     bool
 	sample         any
+	// set for a case whose Coq check is the property's oracle applied to the code's output
+	// (vh.OracleCase): a failure is reported under okey as a concrete failing input
+	okey, owhat string
+	oinput      any
 }
 
 type runner struct {
@@ -50,7 +54,7 @@ type runner struct {
 }
 
 func (r *runner) emit(kind, coq, key string, nontrivial bool, sample any) {
-	r.cases = append(r.cases, pending{kind, coq, key, nontrivial, sample})
+	r.cases = append(r.cases, pending{kind: kind, coq: coq, key: key, nontrivial: nontrivial, sample: sample})
 }
 
 // vh cuts the case list into shards of shardSize consecutive cases which Coq evaluates in
@@ -89,7 +93,11 @@ func (r *runner) flush() {
 		sort.Ints(sh) // keep generation order inside a shard
 		for _, i := range sh {
 			p := r.cases[i]
-			r.c.Case(p.kind, p.coq, p.key, p.nontrivial, p.sample)
+			if p.okey != "" {
+				r.c.OracleCase(p.kind, p.coq, p.okey, p.owhat, p.oinput, p.nontrivial)
+			} else {
+				r.c.Case(p.kind, p.coq, p.key, p.nontrivial, p.sample)
+			}
 		}
 	}
 	r.cases = nil
@@ -168,6 +176,9 @@ func run(c *vh.Ctx) {
 
 	// ---- encode, edit the exported fields, encode again (edits.go) ----
 	r.editAfterEncode()
+
+	// ---- Write on objects that are not fresh (rewrites.go) ----
+	r.writeNonFresh()
 
 	// ---- B: fixed GREASE ECH corpus ----
 	r.echCorpus()
